@@ -74,13 +74,13 @@ CHECKS = {
    technique='deterministic simulation with fault injection: seeded request streams + schedule search, allocation step invariant + result truth-table oracle at quiescence'),
 
  'C09': dict(
-   text='full agent world on Slurm node names with a seeded launcher configuration (FORK, MPIRUN +MPT/RSH/CCMRUN/DPLACE, MPIEXEC +MPT with rank file / host file / PALS / -f modes, SRUN old/new, APRUN, IBRUN, SSH, RSH, CCMRUN; >42-host thresholds): the real scheduler chooses slots, the real executor asks the real find_launcher / get_launch_cmds; a spy records command + referenced files; oracle = reference parser (process count, node multiset or node set, rank-file / cpu-bind pins) vs. the slots, command of a fresh launcher instance (history independence), refusal of multi-rank tasks by single-process methods. The history dimension (order in which tasks reach the one launcher object) is decided by the simulated schedule; the input dimension is seeded generation. Sampling, not proof.',
+   text='full agent world on Slurm node names with a seeded launcher configuration (FORK, MPIRUN +MPT/RSH/CCMRUN/DPLACE, MPIEXEC +MPT with rank file / host file / PALS / -f modes, SRUN old/new, APRUN, IBRUN with/without tasks_per_node, SSH, RSH, CCMRUN; >42-host thresholds): the real scheduler chooses slots, the real executor asks the real find_launcher / get_launch_cmds; a spy records command + referenced files; oracle = reference parser (process count, node multiset or node set, rank-file / cpu-bind pins, ibrun host list offset) vs. the slots, command of a fresh launcher instance (history independence), refusal of multi-rank tasks by single-process methods. The history dimension (order in which tasks reach the one launcher object) is decided by the simulated schedule; the input dimension is seeded generation. Sampling, not proof.',
    ref='4 (C09)',
    note='trusted: reference command parsers (written from the launchers documented syntax), simulator fakes; launcher binaries are not executed; JSRUN/PRTE not driven',
    technique='deterministic simulation: randomised launcher configuration in the full agent world, reference-parser oracle + fresh-instance differential'),
 
  'C05': dict(
-   text='end-to-end world: real TaskManager, tmgr scheduler and stagers, real crosswire forwarders, real Agent_0 proxy callbacks, real agent stagers / scheduler (parent + forked child) / Popen executor, one live pilot; seeded workloads (exit codes, spawn errors, timeouts, multi-rank tasks without MPI launcher, staging directives with missing sources) and faults (exception in the work routine of each of 7 components, file system errors, cancels, message delays, stalled threads); history oracle per accepted task: exactly one final state (Task.state samples + TASK_STATE callback), truth table final state vs. injected outcome (false_done, false_failed, false_canceled, failed_without_reason), no component work thread dies, bounded liveness (final within 60 virtual seconds). Sampling, not proof.',
+   text='end-to-end world: real TaskManager, tmgr scheduler and stagers, real crosswire forwarders, real Agent_0 proxy callbacks, real agent stagers / scheduler (parent + forked child) / Popen executor, one live pilot (35% of the runs: real PilotManager/Pilot object with Pilot.stage_in; 30%: a second pilot whose agent is played by the driver, early or late bound); seeded workloads (exit codes, spawn errors, timeouts, multi-rank tasks without MPI launcher, staging directives with missing sources) and faults (exception in the work routine of each of 7 components, file system errors, cancels, message delays, stalled threads); history oracle per accepted task: exactly one final state (Task.state samples + TASK_STATE callback), truth table final state vs. injected outcome (false_done, false_failed, false_canceled, failed_without_reason), no component work thread dies, bounded liveness (final within 60 virtual seconds). Sampling, not proof.',
    ref='4 (C05)',
    note='trusted: simulator fakes; pilot launching and task processes are simulated; no message loss is injected (not promised); raptor Master._result_cb path is exercised in C20 only',
    technique='deterministic simulation with fault injection: end-to-end pipeline, truth-table oracle + bounded liveness'),
